@@ -73,6 +73,32 @@ def replay(c, out, fmt, combos, newtons):
                     r = func.value_at(nxt, rho, act)
                     if np.abs(r).max() > 1e-9 * scale * amp:
                         errs.append(("onestep", ss.name, ls.name, nt.name, float(np.abs(r).max())))
+    # the step is a function of (point, step size, penalty, active set): re-using one solver object across active-set
+    # changes must not change it (derivative data must not be modified by a rebuild of the system matrix)
+    from pygradflow.step.solver import step_solver
+    for ss in (StepSolverType.Standard, StepSolverType.Extended, StepSolverType.Symmetric, StepSolverType.Asymmetric):
+        params = Params(step_solver_type=ss, linear_solver_type=LinearSolverType.LU)
+        it = Iterate(prob, params, x, y)
+        orig = Iterate(prob, params, np.array(c["xhat"], dtype=float), np.array([float(c["yhat"])]))
+        act = np.array([1 in out["act"], 2 in out["act"]])
+        try:
+            sol = step_solver(prob, params, orig, dt, rho)
+            sol.update_derivs(it)
+            for As in (act, ~act, np.array([True, False]), act):
+                sol.update_active_set(As)
+                try:
+                    step = sol.solve(it)
+                except Exception as e:  # noqa: other active sets may give singular systems
+                    if As is act:
+                        raise
+                    step = None
+            tol = TOL[LinearSolverType.LU] * amp * scale
+            xn = x - step.dx
+            if not (np.abs(xn - xn_ref).max() <= tol and abs(float(step.dy[0]) - dy_ref) <= tol):
+                errs.append(("step.reused_solver", ss.name, "LU", "-", [float(v) for v in step.dx], float(step.dy[0]),
+                             [float(v) for v in x - xn_ref], dy_ref))
+        except Exception as e:  # noqa
+            errs.append(("raise.reused_solver:" + type(e).__name__, ss.name, "LU", "-"))
     return errs
 
 
